@@ -9,3 +9,4 @@ open Flyt Flyt.GoIR Flyt.GoIR.Gen
    | none => (acc.1, acc.2.1, acc.2.2 + 1) | some true => (acc.1 + 1, acc.2.1, acc.2.2) | some false => (acc.1, acc.2.1 + 1, acc.2.2)) (0, 0, 0)
 #eval (List.range 20000).foldl (fun acc i => if batchAgree Flyt.Generated.IR.runBatch (i * 7919 + 13) then acc else acc + 1) 0
 #eval (List.range 40).filter (fun i => !(batchAgree Flyt.Generated.IR.runBatch (i * 7919 + 13)))
+#eval (List.range 20000).foldl (fun acc i => if cagree Flyt.Generated.IR.runBatchConcurrent (i * 7919 + 13) then acc else acc + 1) 0
